@@ -35,6 +35,39 @@ class HarnessError(Exception):
     """Something is wrong with the machinery, not with dulwich (exit 2)."""
 
 
+class CpuLimit(BaseException):
+    """The code under test burnt more CPU time on one small case than any terminating run needs (see cpu_limit)."""
+
+
+class cpu_limit:
+    """Context manager: raise CpuLimit inside the block once this process has used ``seconds`` of CPU time in it.
+
+    CPU time (ITIMER_PROF), never the wall clock: a loaded machine does not shorten the allowance.  Callers pick an
+    allowance several orders of magnitude above the normal cost of a case, so only a walk that does not terminate (a
+    tree that contains itself, a ref loop followed for ever) reaches it; they report it as that, not as slowness.
+    """
+
+    def __init__(self, seconds):
+        self.seconds = seconds
+
+    def __enter__(self):
+        import signal
+
+        def fire(signum, frame):
+            raise CpuLimit()
+
+        self._old = signal.signal(signal.SIGPROF, fire)
+        signal.setitimer(signal.ITIMER_PROF, self.seconds, 1.0)
+        return self
+
+    def __exit__(self, *exc):
+        import signal
+
+        signal.setitimer(signal.ITIMER_PROF, 0)
+        signal.signal(signal.SIGPROF, self._old)
+        return False
+
+
 class Violation(Exception):
     """Raised inside Hypothesis tests so that the failing case is shrunk."""
 
